@@ -479,7 +479,7 @@ class TrackedThread(_RealThread):
         _ROLES[get_ident()] = self.vf_role
         try:
             super(TrackedThread, self).run()
-        except DeadlockBroken:
+        except (DeadlockBroken, CaseAbort):
             pass
         except BaseException as e:
             self.vf_error = e
@@ -523,7 +523,7 @@ class _JoinPseudoLock(object):
 
 
 def _excepthook(args):
-    if isinstance(args.exc_value, DeadlockBroken):
+    if isinstance(args.exc_value, (DeadlockBroken, CaseAbort)):
         return
     with MU:
         THREAD_ERRORS.append(
@@ -671,6 +671,19 @@ def release_all_waiters():
             w.event._flag = True
             w.woken = True
         CV.notify_all()
+
+
+def abort_all_parked():
+    """Case cleanup, last resort: unwind every parked thread (library workers too)."""
+    n = 0
+    with CV:
+        for w in list(CLOCK.waiters):
+            if not w.woken:
+                w.abort = True
+                w.woken = True
+                n += 1
+        CV.notify_all()
+    return n
 
 
 def abort_parked_actors():
